@@ -354,6 +354,7 @@ class Analysis:
     self.ins = {}  # bb -> [State]
     self.sites = {}  # (bb, idx, kind) -> Site
     self.callctx = []  # (callee path, Call, arg subtrees) seen in the final pass
+    self.call_vals = {}  # bb -> abstract values of the call's arguments (final pass, joined over states)
     self.thresholds = self._thresholds()
     self.mut_borrowed = self._mut_borrowed()
     self._finalised = False
@@ -555,7 +556,7 @@ class Analysis:
         pass
       return out
     if isinstance(v, dict) and 'arr' in v and v['arr'] and all(isinstance(x, int) for x in v['arr']):
-      m = re.match(r'\[(.+); \d+\]$', t)
+      m = re.match(r'\[(.+); \d+\]$', t) or re.match(r'\[(.+)\]$', t)
       if not m:
         return out
       et = m.group(1)
@@ -628,6 +629,10 @@ class Analysis:
           return False
       if pr and pr[0] == 'castof':
         if not self.refine(st, pr[1], lo=m[1], hi=m[2]):
+          return False
+      if pr and pr[0] == 'shrof' and m[1] >= 0:
+        # (x >> c) in [lo, hi]  =>  x in [lo << c, ((hi + 1) << c) - 1]
+        if not self.refine(st, pr[1], lo=m[1] << pr[2], hi=((m[2] + 1) << pr[2]) - 1):
           return False
     return True
 
@@ -1030,6 +1035,11 @@ class Analysis:
         A, B = self._cmp_side(st, rv['a']), self._cmp_side(st, rv['b'])
         if A and B:
           st.pred[dk] = ('cmp', base, A, B, rv.get('ty') in ('f32', 'f64'))
+      elif base == 'Shr':
+        ka = self.key_of_operand(st, rv['a'])
+        cb = self.read(st, rv['b'])
+        if ka is not None and is_int(cb) and cb[1] == cb[2] and 0 <= cb[1] < 128:
+          st.pred[dk] = ('shrof', ka, cb[1])
       elif base == 'BitAnd':
         # x & C : remember so that (x & C) == 0 refines x's known-zero bits
         ka, kb = self.key_of_operand(st, rv['a']), self.key_of_operand(st, rv['b'])
@@ -1176,7 +1186,10 @@ class Analysis:
     """returns list of (target_bb, state)"""
     from . import models
     dest = call.dest
-    self.havoc_args_pre = None
+    if self.record:
+      vals = [self.read(st, a) for a in call.args]
+      prev = self.call_vals.get(bb)
+      self.call_vals[bb] = vals if prev is None else [join_val(x, y) for x, y in zip(prev, vals)]
     res = models.apply(self, st, call, bb)
     if res is models.DIVERGES:
       return []
@@ -1411,6 +1424,7 @@ class Analysis:
     self._ret = {}
     self.sites = {}
     self.callctx = []
+    self.call_vals = {}
     for bb in rpo:
       for s in self.ins.get(bb) or []:
         self.step_block(s.clone(), bb)
